@@ -5,7 +5,8 @@
 # patch.diff and demo/run.sh). Never touches /repo's working tree.
 set -u
 ID=$1
-DIR=${2:-/verif/seeded/$ID}; DIR=$(cd "$DIR" && pwd)
+ROOT=$(cd "$(dirname "$0")/.." && pwd)   # /verif, or a snapshot of it
+DIR=${2:-$ROOT/seeded/$ID}; DIR=$(cd "$DIR" && pwd)
 ORIG=${3:-$(cat "$DIR/ORIGIN" 2>/dev/null || echo /tmp/seed/$ID)}
 WT=/tmp/seedcheck-$ID-$$
 export GOFLAGS=-mod=mod GOPROXY=off
@@ -15,7 +16,7 @@ trap 'git -C /repo worktree remove --force "$WT" >/dev/null 2>&1' EXIT
 git -C "$WT" apply "$DIR/patch.diff" || { echo "patch does not apply"; exit 2; }
 echo "== $ID: $(git -C "$WT" diff --stat | tail -1)"
 (cd "$WT" && go build ./... && go build -tags verif ./...) && echo "build: ok" || echo "build: FAILED"
-echo "pinned suite: $(flock /tmp/verif-baseline.lock /verif/tools/baseline.py "$WT" | head -1)"
+echo "pinned suite: $(flock /tmp/verif-baseline.lock "$ROOT/tools/baseline.py" "$WT" | head -1)"
 if [ -f "$DIR/demo/run.sh" ]; then
   # the demonstration refers to the seed agent's worktree path: point it at ours
   DEMO=/tmp/seedcheck-demo-$ID-$$
@@ -28,4 +29,4 @@ if [ -f "$DIR/demo/run.sh" ]; then
   rm -rf "$DEMO"
 fi
 echo "owning check (quick) against the change:"
-(cd /verif && VERIF_REPO="$WT" ./check $ID quick 2>&1 | grep -v "^KNOWN" | cut -c1-300 | head -6)
+(cd "$ROOT" && VERIF_REPO="$WT" ./check ${CHECK_AS:-$ID} quick 2>&1 | grep -v "^KNOWN" | cut -c1-300 | head -6)
